@@ -708,6 +708,8 @@ def s_document(enc, suffix, keyonly=True, stray=False, max_props=5, max_charts=2
                 comps = []
             elif mode == 1 or key.upper() in MULTI_VALUE:
                 comps = [draw(val) for _ in range(draw(st.integers(1, 3)))]
+                if len(comps) > 1 and draw(st.integers(0, 3)) == 0:
+                    comps[0] = ""  # an empty first component followed by more ("#DISPLAYBPM::180;")
             else:
                 comps = [draw(val)]
             terminated = draw(st.integers(0, 7)) != 0
@@ -793,6 +795,8 @@ def s_script(suffix, max_ops=4, none_values=True):
     ops = [
         st.tuples(st.just("set"), st.sampled_from(EDIT_KEYS), alts),
         st.tuples(st.just("set"), st.sampled_from(EDIT_KEYS), st.sampled_from([[""], ["a"], ["0"]])),
+        # multi-value properties whose first component is empty (the value starts with a colon)
+        st.tuples(st.just("set"), st.sampled_from(list(MULTI_VALUE)), st.sampled_from([[":180"], [":a:b"], ["::"], [":"]])),
         st.tuples(st.just("del"), st.sampled_from(EDIT_KEYS)),
         st.tuples(st.just("attr"), st.sampled_from(EDIT_ATTRS), alts),
         st.tuples(st.just("delattr"), st.sampled_from(EDIT_ATTRS)),
